@@ -20,7 +20,7 @@
     no key. *)
 From Coq Require Import List Bool NArith ZArith.
 Import ListNotations.
-From Ont Require Import Gen.Thresholds Gen.VbftIntake Model.VbftPool.
+From Ont Require Import Gen.Thresholds Gen.VbftIntake Gen.VbftMarks Model.VbftPool.
 Local Open Scope N_scope.
 
 (** * Blocks, signatures, messages *)
@@ -135,7 +135,7 @@ Record node := mkNode {
   n_msgs : list msg;                 (* MsgPool round *)
   n_endorsed : option (N * N);       (* CandidateInfo.EndorsedProposal (proposer, content) *)
   n_endorsed_empty : option (N * N); (* EndorsedEmptyProposal *)
-  n_committed : option (N * N * bool); (* CommittedProposal / CommittedEmptyProposal (one is nil) *)
+  n_committed : option (N * N) * option (N * N); (* (CommittedProposal, CommittedEmptyProposal) *)
   n_commit_done : bool;              (* CandidateInfo.commitDone *)
   n_sealed : option blk;             (* CandidateInfo.SealedBlock; afterwards currentBlockNum moved on *)
   n_q : list msg;                    (* Server.msgC *)
@@ -144,7 +144,7 @@ Record node := mkNode {
   n_seen : list msg                  (* ghost: every message ever put into msgC or the MsgPool *)
 }.
 
-Definition node0 : node := mkNode [] [] None None None false None [] [] [] [].
+Definition node0 : node := mkNode [] [] None None (None, None) false None [] [] [] [].
 
 Definition pool (nd : node) : cand := run_ops (n_ops nd) cand_empty.
 Definition is_some {A} (o : option A) : bool := match o with Some _ => true | None => false end.
@@ -154,7 +154,8 @@ Definition has_cand (nd : node) : bool := negb (match n_ops nd with [] => true |
 
 Definition endorsed_for_block (nd : node) : bool := is_some (n_endorsed nd) || is_some (n_endorsed_empty nd).
 Definition endorsed_for_empty (nd : node) : bool := is_some (n_endorsed_empty nd).
-Definition committed_for_block (nd : node) : bool := is_some (n_committed nd).
+Definition committed_for_block (nd : node) : bool :=
+  is_some (fst (n_committed nd)) || is_some (snd (n_committed nd)).
 
 (** field updates *)
 Definition upd_ops (nd : node) v := mkNode v (n_msgs nd) (n_endorsed nd) (n_endorsed_empty nd) (n_committed nd)
@@ -196,13 +197,25 @@ Definition set_proposal_endorsed (nd : node) (p k : N) (forEmpty : bool) : optio
     | None => Some (upd_endorsed_empty nd (Some (p, k)))
     end.
 
-(** setProposalCommitted: one commit per height. *)
+(** setProposalCommitted, statement by statement. The first test is the only place where "the
+    first commit of the height wins" is decided atomically (the function holds the pool's write
+    lock; commitBlock's own pre-check is made under a read lock that is released before signing):
+    whether the current source still has it is read from the AST (Gen/VbftMarks.v). The per-kind
+    tests after it are dead code while it is there. *)
 Definition set_proposal_committed (nd : node) (p k : N) (forEmpty : bool) : option node :=
+  let '(cb, ce) := n_committed nd in
   if negb (has_cand nd) then None
-  else match n_committed nd with
-       | Some _ => None
-       | None => Some (upd_committed nd (Some (p, k, forEmpty)))
-       end.
+  else if set_committed_cross_kind_guard && (is_some cb || is_some ce) then None
+  else if forEmpty then
+    match ce with
+    | Some (p', _) => if negb (p' =? p) then None else Some (upd_committed nd (cb, Some (p, k)))
+    | None => Some (upd_committed nd (cb, Some (p, k)))
+    end
+  else
+    match cb with
+    | Some (p', _) => if negb (p' =? p) then None else Some (upd_committed nd (Some (p, k), ce))
+    | None => Some (upd_committed nd (Some (p, k), ce))
+    end.
 
 (** setBlockSealed: single seal per height (a second seal of the same proposer is a silent no-op,
     of another proposer an error). *)
@@ -275,16 +288,30 @@ Definition collect_ends (msgs : list msg) (h : blk) (forEmpty : bool) : list (N 
     | _ => acc
     end) msgs [].
 
+(** commitBlock after its pre-check: collect the endorsements, sign, setProposalCommitted, msgC,
+    broadcast. *)
+Definition commit_tail (P : params) (self : N) (nd : node) (p k : N) (forEmpty : bool) : node * list msg :=
+  let h := mkBlk p k forEmpty in
+  let m := MCommit self p forEmpty h (self, h) (collect_ends (n_msgs nd) h forEmpty) in
+  match set_proposal_committed nd p k forEmpty with
+  | None => (nd, [])
+  | Some nd1 => let bc := forEmpty || isC P self in (emit nd1 SCommit h m bc, if bc then [m] else [])
+  end.
+
 Definition commit_block (P : params) (self : N) (nd : node) (p k : N) (forEmpty : bool) : node * list msg :=
   if p =? self then (nd, [])
-  else if committed_for_block nd then (nd, [])
-  else
-    let h := mkBlk p k forEmpty in
-    let m := MCommit self p forEmpty h (self, h) (collect_ends (n_msgs nd) h forEmpty) in
-    match set_proposal_committed nd p k forEmpty with
-    | None => (nd, [])
-    | Some nd1 => let bc := forEmpty || isC P self in (emit nd1 SCommit h m bc, if bc then [m] else [])
-    end.
+  else if committed_for_block nd then (nd, [])     (* the pre-check, under a read lock *)
+  else commit_tail P self nd p k forEmpty.
+
+(** commitBlock is reached from the message loop, the timer loop and the action loop, and its
+    pre-check is not atomic with the rest: a loop that made its decision and passed the pre-check
+    earlier may run the rest now (whatever another loop did in between). *)
+Definition commit_late (P : params) (self : N) (nd : node) (p : N) (forEmpty : bool) : node * list msg :=
+  if p =? self then (nd, [])
+  else match find_proposal nd p with
+       | Some k => commit_tail P self nd p k forEmpty
+       | None => (nd, [])
+       end.
 
 (** * processMsgEvent: one message taken from msgC. [ord] is the iteration order of the
     EndorseSigs map used by endorseDone / commitDone in this call. *)
@@ -422,7 +449,8 @@ Inductive levent :=
 | LProc (ord : list N)            (* processMsgEvent takes the head of msgC *)
 | LAct                            (* actionLoop takes the head of bftActionC *)
 | LTimer (t : timer) (ord : list N)
-| LPropose.
+| LPropose
+| LCommitLate (p : N) (e : bool). (* the rest of a commitBlock whose pre-check passed earlier *)
 
 Definition local_step (P : params) (self : N) (nd : node) (ev : levent) : node * list msg :=
   match ev with
@@ -439,6 +467,7 @@ Definition local_step (P : params) (self : N) (nd : node) (ev : levent) : node *
       end
   | LTimer t ord => on_timer P self ord nd t
   | LPropose => propose self nd
+  | LCommitLate p e => commit_late P self nd p e
   end.
 
 (** * The network and the global configuration *)
@@ -527,3 +556,26 @@ Definition all_signed (P : params) (cfg : config) : list blk :=
 Definition no_equiv_blocks (l : list blk) : bool :=
   forallb (fun x => forallb (fun y => negb (b_proposer x =? b_proposer y) || (b_variant x =? b_variant y)) l) l.
 Definition no_equivocationb (P : params) (cfg : config) : bool := no_equiv_blocks (all_signed P cfg).
+
+(** * The marks alone (block_pool.go): sequences of calls on one candidate *)
+Inductive mark_op :=
+| MkAdd (p k : N)                 (* newBlockProposal: the candidate exists afterwards *)
+| MkEndorse (p k : N) (e : bool)  (* setProposalEndorsed *)
+| MkCommit (p k : N) (e : bool).  (* setProposalCommitted *)
+
+Definition apply_mark (nd : node) (o : mark_op) : node * bool :=
+  match o with
+  | MkAdd p k => (upd_ops nd (n_ops nd ++ [OpProposal true (mkPP p k true)]), true)
+  | MkEndorse p k e => match set_proposal_endorsed nd p k e with Some nd' => (nd', true) | None => (nd, false) end
+  | MkCommit p k e => match set_proposal_committed nd p k e with Some nd' => (nd', true) | None => (nd, false) end
+  end.
+
+Fixpoint run_marks (nd : node) (ops : list mark_op) : node * list bool :=
+  match ops with
+  | [] => (nd, [])
+  | o :: r => let '(nd1, ok) := apply_mark nd o in let '(nd2, oks) := run_marks nd1 r in (nd2, ok :: oks)
+  end.
+
+(** at most one of CommittedProposal / CommittedEmptyProposal is set *)
+Definition one_commit_mark (nd : node) : bool :=
+  negb (is_some (fst (n_committed nd)) && is_some (snd (n_committed nd))).
